@@ -41,7 +41,6 @@ CONSTANTS MaxBatches,    \* batches acknowledged, 1..MaxBatches in order
           Overlap,       \* flusher and merger may run at the same time
           CrashModels,   \* subset of {"kill9", "powerloss"}
           Required,      \* data files a part cannot be opened without (subset of DataFiles)
-          MaxPend,       \* bound on un-synced name-space effects (2^MaxPend loss subsets)
           Fixes          \* repairs applied to the recovery as coded at the pinned commit (subset of AllFixes);
                          \* {} = as pinned
 AllFixes == {"clean-root-tmp",        \* initTSTable removes *.tmp files left in the table root
@@ -274,7 +273,7 @@ NoTornFileServed    == Recovered => rec.torn = {}
 NoDanglingManifestEntryServed == Recovered => rec.miss = {}   \* a listed part with a missing file is never opened
 LeftoversCleaned    == Recovered => rec.left = {}
 NoStaleManifest     == Recovered => rec.stale = {}     \* NOT part of the property; reported as an observation
-PendBounded         == Len(pend) <= MaxPend
+PendBounded         == Len(pend) <= MaxPend   \* when it holds, EVERY loss subset was explored at every crash point
 
 PartFileNames(x) == {MetaNm(x)} \cup {DataNm(x, f) : f \in Required} \cup (IF HasTT THEN {TagNm(x)} ELSE {})
 FileDurable(ns, fl, dt, nm) == Has(ns, nm) /\ InoOf(ns, nm) \in fl /\ InoOf(ns, nm) \notin dt
